@@ -22,28 +22,40 @@ SET_LAYOUTS = {
     False: ['sh.set.after_handler', 'sh.set.after_data'],
     True: ['sh.set.after_handler_clear', 'sh.set.after_data', 'sh.set.after_handler'],
 }
+DTOR_LAYOUTS = {
+    False: ['sh.dtor.after_set_interrupter', 'sh.dtor.after_stop1', 'sh.dtor.after_handler0', 'sh.dtor.after_msg_size0', 'free'],
+    True: ['sh.dtor.after_set_interrupter', 'sh.dtor.after_handler0', 'sh.dtor.after_msg_size0', 'free'],   # no `stop_ = 1`
+}
 LAYOUT_NAME = {(False, False): 'pinned', (True, False): 'ctorfix', (False, True): 'regfix', (True, True): 'fixed'}
 NSTEPS = {'C': 7, 'R': 2, 'W': 1, 'D': 5, 'N': 1}
 CTOR_NAMES = CTOR_LAYOUTS[False]
 SET_NAMES = SET_LAYOUTS[False]
 
 
-def set_layout(ctor_fixed, reg_fixed):
-    global CTOR_NAMES, SET_NAMES
+def set_layout(ctor_fixed, reg_fixed, dtor_fixed=False):
+    global CTOR_NAMES, SET_NAMES, DTOR_NAMES
     CTOR_NAMES = CTOR_LAYOUTS[ctor_fixed]
     SET_NAMES = SET_LAYOUTS[reg_fixed]
+    DTOR_NAMES = DTOR_LAYOUTS[dtor_fixed]
     NSTEPS['R'] = len(SET_NAMES)
+    NSTEPS['D'] = len(DTOR_NAMES)
+
+
+def layout_name(cf, rf, df):
+    return LAYOUT_NAME[(bool(cf), bool(rf))] + ('+dtor' if df else '')
 
 
 def detect_layout(exe):
     """run `C R:1:1 D` without signals on the real code and read the order of the stores off the hook names"""
-    p = subprocess.run([exe, '3'], input='bsd C R:1:1 D |\n', capture_output=True, text=True)
+    p = subprocess.run([exe, '3,5'], input='bsd C R:1:1 D |\n', capture_output=True, text=True)
     names = [t.split('[')[0] for t in p.stdout.strip().split(' ')]
     ctor = [n for n in names if n.startswith('sh.ctor.')]
     sets = [n for n in names if n.startswith('sh.set.')]
+    dt = [n for n in names if n.startswith('sh.dtor.') or n == 'free']
     cf = [k for k, v in CTOR_LAYOUTS.items() if v == ctor]
     rf = [k for k, v in SET_LAYOUTS.items() if v == sets]
-    return (cf[0] if cf else None), (rf[0] if rf else None), names
+    df = [k for k, v in DTOR_LAYOUTS.items() if v == dt]
+    return (cf[0] if cf else None), (rf[0] if rf else None), (df[0] if df else None), names
 DTOR_NAMES = ['sh.dtor.after_set_interrupter', 'sh.dtor.after_stop1', 'sh.dtor.after_handler0',
               'sh.dtor.after_msg_size0', 'free']
 MSGLEN = 18
@@ -55,7 +67,7 @@ ALL_COUNTEREXAMPLES = [   # (theorem, case, expected oracle class, layout aspect
     ('C15_oldorder_counterexample_mispaired_reregistration', 'bsd C R:1:1 R:2:2 | 10:I', 'sethandler-window:mispaired:new-callback-old-data', 'reg'),
     ('C15_oldorder_counterexample_third_no_exit_ctor_window', 'bsd C W | 5:I 7:I 7:I', 'ctor-window:third-no-exit', 'ctor'),
     ('C15_oldorder_counterexample_early_exit_ctor_window', 'bsd C W | 5:I 5:I', 'ctor-window:early-exit', 'ctor'),
-    ('C15_counterexample_third_no_exit_across_teardown', 'bsd C W D W | 8:I 8:I 13:I', 'across-teardown:third-no-exit', 'any'),
+    ('C15_counterexample_third_no_exit_across_teardown', 'bsd C W D W | 8:I 8:I 13:I', 'across-teardown:third-no-exit', 'dtor'),
 ]
 COUNTEREXAMPLES = [c[:3] for c in ALL_COUNTEREXAMPLES]
 
@@ -568,7 +580,7 @@ def run_impl(exe, lines, shards, app_exe=None):
 
 
 def run_impl_one(exe, lines, shards, extra_args, tag):
-    exe_args = [exe, str(NSTEPS['R'])] + list(extra_args)
+    exe_args = [exe, '%d,%d' % (NSTEPS['R'], NSTEPS['D'])] + list(extra_args)
     os.makedirs(os.path.join(BUILD, 'c15'), exist_ok=True)
     chunks = [lines[i::shards] for i in range(shards)]
     procs = []
@@ -817,17 +829,17 @@ def run(ck):
     exe = build_harness(ck)
     drv = ck.driver('drv_c15')
     global COUNTEREXAMPLES
-    cf, rf, names = detect_layout(exe)
-    layout = LAYOUT_NAME.get((cf, rf))
+    cf, rf, df, names = detect_layout(exe)
+    layout = layout_name(cf, rf, df) if None not in (cf, rf, df) else None
     if layout is None:
         # neither the pinned order nor a proposed repair: keep the pinned model; the correspondence and the shape
         # check of the oracle will report exactly where the order of the stores differs
         ck.log('store order of the real code is not one the model knows: %s' % names)
-        cf, rf = bool(cf), bool(rf)
-        layout = LAYOUT_NAME[(cf, rf)]
-    set_layout(cf, rf)
+        cf, rf, df = bool(cf), bool(rf), bool(df)
+        layout = layout_name(cf, rf, df)
+    set_layout(cf, rf, df)
     COUNTEREXAMPLES = [c[:3] for c in ALL_COUNTEREXAMPLES
-                       if c[3] == 'any' or (c[3] == 'ctor' and not cf) or (c[3] == 'reg' and not rf)]
+                       if c[3] == 'any' or (c[3] == 'ctor' and not cf) or (c[3] == 'reg' and not rf) or (c[3] == 'dtor' and not df)]
     ck.log('store order observed in the real code: layout %s' % layout)
     ck.cov['layout_observed'] = layout
     ck.cov['layout_of_main_theorems'] = CURRENT_LAYOUT
@@ -835,7 +847,7 @@ def run(ck):
         'pinned': 'OLD store order (both repairs reverted): only C15_anyorder_* apply; ctor-window and SetHandler-window defects are back',
         'ctorfix': 'SetHandler repair missing: C15_pairing does not apply, SetHandler-window defect is back',
         'regfix': 'constructor repair missing: C15_no_lost / C15_no_early_exit / C15_third_exits_partial do not apply, ctor-window defect is back',
-        'fixed': 'main theorems C15_no_lost, C15_pairing, C15_no_early_exit (full) and C15_third_exits_partial apply; open finding: across teardown'}[layout]
+        'fixed': 'main theorems C15_no_lost, C15_pairing, C15_no_early_exit (full) and C15_third_exits_partial apply; open finding: across teardown'}.get(layout, 'destructor repair present (no stop_ = 1): C15_order_third_exits_full applies; Layout.current must be updated')
     cases, enum_desc = gen_cases(ck)
     lines = [l for _, l in cases]
     ck.log('%d cases (%s)' % (len(lines), ', '.join('%s=%d' % (o, sum(1 for x, _ in cases if x == o))
@@ -1086,9 +1098,9 @@ def replay(ck, path):
         return 1
     exe = build_harness(ck)
     drv = ck.driver('drv_c15')
-    cf, rf, names = detect_layout(exe)
-    set_layout(bool(cf), bool(rf))
-    layout = LAYOUT_NAME[(bool(cf), bool(rf))]
+    cf, rf, df, names = detect_layout(exe)
+    set_layout(bool(cf), bool(rf), bool(df))
+    layout = layout_name(cf, rf, df)
     il = run_impl(exe, [case], 1, build_app_harness(ck) if is_app(case) else None)[0]
     ml = run_model(drv, [case], layout)[0]
     if is_app(case):
